@@ -258,5 +258,11 @@ func (*treePipeline) handlePipelineErr(ctx context.Context, echs ...<-chan error
 			return nil
 		})
 	}
-	return eg.Wait()
+	if err := eg.Wait(); err != nil {
+		return err
+	}
+	// All stages have wound down without reporting an error. If that is because the
+	// context was cancelled (each stage then just closes its channels), the result is
+	// incomplete and the cancellation must be reported.
+	return ctx.Err()
 }
